@@ -18,6 +18,7 @@ import (
 	"go/token"
 	"go/types"
 	"log"
+	"reflect"
 	"sort"
 	"strings"
 	"syscall"
@@ -185,7 +186,35 @@ func (p *astVisitor) Visit(node ast.Node) (w ast.Visitor) {
 	return nil
 }
 
+// useDeclaredNames records every identifier that occurs in the package's syntax trees (other than
+// package qualifiers and the members selected from them), so that no import is given a name that a
+// declaration of any kind - parameter, result, local, range or type-switch variable, label,
+// package-level object of any file - already uses.
+func useDeclaredNames(this *Package) {
+	for _, f := range this.files {
+		for _, decl := range f.goDecls {
+			ast.Inspect(decl, func(node ast.Node) bool {
+				if v := reflect.ValueOf(node); v.Kind() == reflect.Ptr && v.IsNil() {
+					return false // e.g. a FuncDecl without Type
+				}
+				switch v := node.(type) {
+				case *ast.SelectorExpr:
+					if id, ok := v.X.(*ast.Ident); ok && id.Obj != nil {
+						if _, ok := id.Obj.Data.(importUsed); ok {
+							return false
+						}
+					}
+				case *ast.Ident:
+					this.useName(v.Name)
+				}
+				return true
+			})
+		}
+	}
+}
+
 func markUsed(this *Package, file *File) {
+	useDeclaredNames(this)
 	p := &astVisitor{pkg: this, file: file}
 	for _, decl := range file.goDecls {
 		ast.Walk(p, decl)
